@@ -19,3 +19,13 @@ pub fn vparse(s: &[u8]) -> VParse {
     }
     VParse::Overflow
 }
+
+/// CRC-64-AVRO from the Avro specification (fingerprint64 / initFPTable), written independently of the crate
+pub fn crc64avro(data: &[u8]) -> u64 {
+    const EMPTY: u64 = 0xc15d213aa4d7a795;
+    let mut table = [0u64; 256];
+    for i in 0..256u64 { let mut fp = i; for _ in 0..8 { fp = (fp >> 1) ^ (EMPTY & (0u64.wrapping_sub(fp & 1))); } table[i as usize] = fp; }
+    let mut fp = EMPTY;
+    for b in data { fp = (fp >> 8) ^ table[((fp ^ *b as u64) & 0xff) as usize]; }
+    fp
+}
